@@ -463,6 +463,11 @@ def runOp (s : Sexp) : String :=
       (match parseHex d, m.toNat? with
        | some b, some mx => s!"ok {entriesPresent b mx}"
        | _, _ => "bad-op")
+  | .list (.atom "gcptrs" :: _) => "unsupported"
+  | .list (.atom "unwrap" :: _) => "unsupported"
+  | .list [.atom "jalias"] => "unsupported"
+  | .list [.atom "regselfhist"] => "unsupported"
+  | .list [.atom "pkgreg"] => "unsupported"
   | .list [.atom "entryorder"] => "unsupported"
   | .list [.atom "reginterntag"] => "unsupported"
   | .list [.atom "regmapkind"] => "unsupported"   -- inputs nested deeper than the cut of a recursive type
